@@ -382,6 +382,10 @@ def prov_failure_states(chk: Check) -> None:
                 if isinstance(n_, ast.Assign) and norm(n_.value) == 'None' and g is not cb:
                     cleared |= {norm(t_) for t_ in n_.targets}
         ok2 = recv not in cleared or all(any(a_[0] in ('notnone', 'T') and a_[1] == recv for a_ in fs) for _, fs in cbf.site_facts(ce[0]))
+        # (a LOCAL bound before the callback is awaited is a snapshot of the attribute: what other methods do to the attribute meanwhile does not reach it)
+        rn_ = ce[0].func.value
+        if isinstance(rn_, ast.Name) and rn_.id not in ('self', 'cls') and rn_.id not in cb.params:
+            ok2 = True
         chk.ob('PROV-failure-state', cb, ok2, f'the failure is reported to {recv}, which ' + ('is not cleared by another method of the handle' if recv not in cleared else
                'cancel()/_cleanup() set to None while the callback is being awaited: the report raises AttributeError into the event loop and the user\'s exception is lost'),
                node=ce[0], kind='callback-process-known')
